@@ -126,6 +126,14 @@ def eval_block(block, acc):
                 for cfg in CFGS[:2]:
                     judge_stream(data, cfg, clean_ends_of(seq, cfg), acc, {"stream": data.hex(), "tokens": list(seq), "clean_ends": clean_ends_of(seq, cfg)}, kind)
         return
+    elif block[0] == "swallow":
+        for seq in streams.swallow_seqs():
+            if seq[0] != block[1] and not (block[1] is None and seq[0] in streams.SWALLOW_TOKENS):
+                continue
+            data = streams.seq_bytes(seq)
+            for cfg in CFGS + [dict(quitonerror=0, parsing=False), dict(quitonerror=1, handler=True, parsing=False, protfilter=6)]:
+                judge_stream(data, cfg, None, acc, {"stream": data.hex(), "tokens": list(seq), "clean_ends": None})
+        return
     elif block[0] == "sock":
         # the peer of a socket closes at every byte: clean sequences of <= 3 frames, recv chunks x receive buffer sizes
         first = block[1]
@@ -173,6 +181,7 @@ def run_tier(tier, t0):
             blocks += [("tokens", f, 4, "a4")]
     blocks += [("long", L) for L in streams.LONG_NAMES]
     blocks += [("kinds", f) for f in streams.FRAME_TOKENS + streams.FRAG_TOKENS]
+    blocks += [("swallow", a) for a in (None, "Uack", "N1", "R1")]
     blocks += [("sock", f) for f in streams.FRAME_TOKENS if vt(CFGS[0])[f][0] == "ok"]
     if not q:
         # depth 4 restricted to frame tokens (clean and rejected), all cuts
@@ -185,7 +194,7 @@ def run_tier(tier, t0):
             f"over {len(ALPHABET)} tokens (frames, noise, fragments)" + ("" if q else f" and of every sequence of 4 tokens over a reduced alphabet of {len(ALPHA4)}") + f" x {len(CFGS)} configurations (ignore / log+handler x validate 0/1). "
             "distinct_nontrivial = distinct (items of uncut run, items of cut run) pairs"
         ),
-        assumptions=["io.BytesIO(S[:k]) models a stream that ends after k bytes; token sequences of <= 2 are also read through a pipe-like stream (tell/seek raise) a minimal read/readline-only object and a BufferedReader", "socket ring: clean sequences of <= 3 accepted frames through a socket whose peer closes after k bytes, for every k, x (recv chunk, bufsize) in (1,4),(5,8),(16,16),(7,64),(64,32),(4096,4096)", "parsed items compared by type, str() and serialize()"],
+        assumptions=["io.BytesIO(S[:k]) models a stream that ends after k bytes; token sequences of <= 2 are also read through a pipe-like stream (tell/seek raise) a minimal read/readline-only object and a BufferedReader", "swallow ring: headers announcing far more data than follows (UBX length fff0/8000/ffff/7fff, RTCM3 1023) before two frames, every cut, 7 configurations incl. parsing=False", "socket ring: clean sequences of <= 3 accepted frames through a socket whose peer closes after k bytes, for every k, x (recv chunk, bufsize) in (1,4),(5,8),(16,16),(7,64),(64,32),(4096,4096)", "parsed items compared by type, str() and serialize()"],
         vacuity=[
             ("some cut run delivered fewer items than the uncut run", any(a > b for (a, b) in acc.outcomes)),
             ("clean sequences were explored", acc.extra["clean_sequences"] > 0),
